@@ -32,7 +32,7 @@ LEVEL_NOTE = (
 TECHNIQUE = "deterministic simulation: evaluation-budget cut at every evaluation index (interruption inside the line search), monotone-history oracle"
 DESIGN_REF = "DESIGN.md 4.1"
 BUDGET = {
-    "quick": {"plans": 2500, "wall": 90, "chunk": 8},
+    "quick": {"plans": 4000, "wall": 90, "chunk": 8},
     "thorough": {"plans": 40000, "wall": 900, "chunk": 4},
 }
 RULE = (
